@@ -1,10 +1,12 @@
 // Instantiation TU for the JSON support: private kernels are reached with -fno-access-control.
 #include <chaiscript/chaiscript_basic.hpp>
 #include <chaiscript/utility/json.hpp>
+#include <chaiscript/utility/json_wrap.hpp>
 using namespace chaiscript::json;
 volatile void *verif_sink3;
 template<typename F> static void use_(F f) { static F keep; keep = f; verif_sink3 = &keep; }
 extern "C" void verif_force_json() {
   use_(&JSON::json_escape); use_(&JSONParser::parse_string); use_(&JSONParser::parse_number); use_(&JSONParser::parse_bool); use_(&JSONParser::parse_null);
+  use_(static_cast<chaiscript::Boxed_Value (*)(const JSON &)>(&chaiscript::json_wrap::from_json));
   use_(&JSONParser::consume_ws); use_(&JSONParser::parse_next); use_(&JSONParser::parse_array); use_(&JSONParser::parse_object);
 }
